@@ -415,6 +415,9 @@ func (fr *Frame) applyHints(c *ssa.CallCommon, pos token.Pos, st *State, instr *
 		env := fr.baseEnv(st)
 		blk := instr.Block()
 		env.lookup = func(name string) (TV, bool) {
+			if tv, ok := fr.rangeSlice(name); ok {
+				return tv, true
+			}
 			// rangeindex<k> inside the body of range loop k (or of a loop nested in it): the header phi, i.e. the index
 			// of the last element processed BEFORE the current iteration (current element = rangeindex<k>+1)
 			if strings.HasPrefix(name, "rangeindex") && len(name) > len("rangeindex") {
@@ -500,6 +503,17 @@ func (fr *Frame) execCall(c *ssa.CallCommon, pos token.Pos, st *State, instr *ss
 		for _, b := range mc.Bindings {
 			binds = append(binds, fr.val(b))
 		}
+		// `option modular-closure` on the closure's own contract: the direct call of the closure is replaced by its
+		// contract (requires proved here, modifies havoced, ensures assumed) instead of inlining its body. The contract
+		// is verified separately for arbitrary values of the captured variables, which are bound here to the values
+		// captured at this MakeClosure (ordinary modular reasoning; the captured cells are just further arguments).
+		if ct := vc.eng.contractFor(callee); ct != nil && ct.Options["modular-closure"] && len(binds) == len(callee.FreeVars) {
+			fr.closureBinds = map[string]TV{}
+			for i, fv := range callee.FreeVars {
+				fr.closureBinds[fv.Name()] = TV{binds[i], fv.Type()}
+			}
+			return fr.applyContract(callee, ct, args, argTypes, pos, st)
+		}
 		return fr.inlineCall(callee, args, binds, pos, st)
 	}
 	name := callee.String()
@@ -507,7 +521,8 @@ func (fr *Frame) execCall(c *ssa.CallCommon, pos token.Pos, st *State, instr *ss
 		return &StructV{}
 	}
 	// H4 patch: an explicit contract for time.Now (ghost clock) takes precedence over the native "arbitrary value" model
-	if !(name == "time.Now" && vc.eng.contractFor(callee) != nil) {
+	// (likewise strconv.FormatUint: with a dependency contract its result is the decimal string of its argument, not an arbitrary string)
+	if !((name == "time.Now" || name == "strconv.FormatUint") && vc.eng.contractFor(callee) != nil) {
 		if v, ok := fr.nativeModel(name, callee, c, args, pos, st); ok {
 			return v
 		}
@@ -738,6 +753,10 @@ func (fr *Frame) applyContract(callee *ssa.Function, ct *Contract, args []Val, a
 	for i, p := range callee.Params {
 		env.names[p.Name()] = TV{args[i], p.Type()}
 	}
+	for n, tv := range fr.closureBinds { // captured variables of a closure called modularly (see execCall)
+		env.names[n] = tv
+	}
+	fr.closureBinds = nil
 	short := shortFuncName(callee)
 	vc.callCount[short]++
 	k := vc.callCount[short]
@@ -883,7 +902,20 @@ func (fr *Frame) applyMods(st, pre *State, mods []modLoc, pos token.Pos) {
 				x.whole = true
 			} else {
 				x.targets = append(x.targets, m.base)
-				x.guards = append(x.guards, m.guard)
+				g := m.guard
+				// `option nil-base-unwritten` (on the caller): a location whose base object is nil denotes no memory at
+				// all (the frame check above takes the same view), so the call leaves the heap at reference 0 alone. Without
+				// it `modifies s[*]` for a nil slice s havocs the (fictitious) elements of array 0, and facts about slices
+				// that are not yet known to be non-nil are lost.
+				if vc.nilBaseUnwritten && m.base != "" {
+					nz := not(eq(m.base, "0"))
+					if g == "" {
+						g = nz
+					} else {
+						g = and(g, nz)
+					}
+				}
+				x.guards = append(x.guards, g)
 			}
 		}
 	}
